@@ -75,7 +75,7 @@ def one(spec, R, batch, stats, quick):
     b = GR.build(spec)
     try:
         g = extract_grammar(b.considered, b.start)
-        decl = declared_grammar(list(b.classes.values()), b.start)
+        decl = b.oracle()
         impl0 = impl_grammar(g)
         mind = int(g.get_min_tree_depth())
         evs = []
